@@ -188,6 +188,13 @@ def run(repo: Repo, chk: Check, thorough: bool = False) -> None:
                    f'`{norm(n)}`: the cursor that is bounds-checked and advanced is not the one the character is read from - the bracket / star scan decides on the wrong character', repo.loc(tr.mod, n))
     if n_guard < 4:
         raise AnalysisError(f'R13.1: {n_guard} guarded cursor reads found in translate (4 confirmed by hand)')
+    # the text between the brackets is pasted into a regex character class: `a-z` becomes a regex range, and a reversed range (`z-a`), which is
+    # just an empty set for the documented matcher, is an error for the regex compiler - unless translate() looks at the hyphens itself
+    hyphen = any(isinstance(n, ast.Constant) and isinstance(n.value, str) and n.value == '-' for n in tr.walk())
+    chk.ob('R13.1', "qnmatch.translate :: ranges inside [seq] are validated before they reach the regex compiler", hyphen,
+           'translate() handles `-` inside a set' if hyphen else
+           "the set text is inserted verbatim (only backslashes are escaped): `--privacy='PRIVATE:pkg.[z-a]*'` (or `[a-Z]`) makes re.compile raise "
+           "`bad character range` the first time a privacy is computed - a traceback while the first page is written instead of a pattern that matches nothing", tr.loc)
     # a ']' directly after the opening bracket is a member of the set - also after the '!' of a negated set ([!]] matches anything but ']'):
     # the test for the leading ']' must be reached whether or not the '!' test succeeded
     cft = CFG(tr)
@@ -202,7 +209,7 @@ def run(repo: Repo, chk: Check, thorough: bool = False) -> None:
     chk.ob('R13.1', "qnmatch.translate :: a leading ']' is literal in a negated set too", not dep,
            "the ']' test follows the '!' test on both of its outcomes" if not dep else
            f"the ']' test is only reached when `{norm(bang[0].test)}` is {dep[0][1]}: `[!]...]` closes the set at the first ']' and matches something else", repo.loc(tr.mod, close[0]))
-    chk.require('R13.1', 14)
+    chk.require('R13.1', 15)
 
     # ------------------------------------------------------------------ R13.2
     pc = repo.func('pydoctor.model.System.privacyClass')
